@@ -164,7 +164,7 @@ def run_config(cfg):
         return res
     if bo[0] == 'raise':
         res.status = 'violation'
-        res.violations.append(dict(what='backward raises %s: %s' % (bo[1], bo[2][:100]), facts=dict(facts0, interior=True), replay=dict(kind='raise'), reproduced=True)); return res
+        res.violations.append(dict(what='backward raises %s: %s' % (bo[1], bo[2][:100]), facts=dict(facts0, interior=False, nograd=False, raises=True), replay=dict(kind='raise'), reproduced=True)); return res
     acc = bo[1]
     # engine validation: gradient at the sample cotangent equals real autograd
     env = P.AtomEnv()
@@ -204,6 +204,8 @@ def run_config(cfg):
         if none[k] or not sub[k]:
             continue
         ga = AG.grad_of(leaves[k], acc)
+        if any(p is not None for p in ga.reshape(-1)):
+            ga = np.array([P.ZERO if p is None else p for p in ga.reshape(-1)], dtype=object).reshape(ga.shape)
         shp = ga.shape
         for idx in np.ndindex(*shp):
             atom = int(lids[k][idx])
